@@ -131,6 +131,30 @@ def skeletons(tier):
             if ps == "r":
                 P.append(["(define (lp . r) (if (> (length r) 3) r (lp %s 1)))" % extra, "(lp)"])
                 P.append(["(define (lp . r) (if (> (length r) 2) r (apply lp (cons 0 r))))", "(lp %s)" % extra])
+    # case-lambda: every clause shape x every argument count around the clause's fixed arity (rest list empty / one / two elements)
+    cl_sets = [["(() (list 'none))", "((a) (list 'one a))", "((a b . rest) (list 'two+ a b rest))", "(args (list 'fallback args))"],
+               ["((x . more) (list 'head x more))", "(args (list 'fallback args))"],
+               ["((a b) (list 'two a b))", "((a . r) (list 'one+ a r))"],
+               ["((a b c . r) (list 'three+ a b c r))", "((a . r) (list 'one+ a r))", "(() 'zero)"],
+               ["(r (list 'all r))"], ["((a) a)", "((a b) (list a b))"]]
+    for cls in cl_sets:
+        d = "(define cl (case-lambda %s))" % " ".join(cls)
+        for k in range(0, 5):
+            args = " ".join(str(10 + i) for i in range(k))
+            P.append([d, "(cl %s)" % args if k else "(cl)"])
+            P.append([d, "(apply cl (list %s))" % args])
+            P.append([d, "(define (g) (cl %s))" % args if k else "(define (g) (cl))", "(g)"])
+    # a procedure that assigns to its own name (in one arm of a conditional / unconditionally) and then calls that name in tail position
+    redefs = ["(if (= n 2) (set! lp (lambda (n acc) (cons 'new acc))) 1)", "(when (= n 2) (set! lp (lambda (n acc) (cons 'new acc))))",
+              "(cond ((= n 2) (set! lp (lambda (n acc) (cons 'new acc)))) (else 1))", "(and (= n 2) (set! lp (lambda (n acc) (cons 'new acc))))",
+              "(if (not (= n 2)) 1 (set! lp (lambda (n acc) (cons 'new acc))))", "(unless (not (= n 2)) (set! lp (lambda (n acc) (cons 'new acc))))",
+              "(set! lp (lambda (n acc) (cons 'new acc)))", "(or (not (= n 2)) (set! lp (lambda (n acc) (cons 'new acc))))",
+              "(let ((q (= n 2))) (if q (set! lp (lambda (n acc) (cons 'new acc))) 1))"]
+    for rd in redefs:
+        P.append(["(define (lp n acc) %s (if (= n 0) acc (lp (- n 1) (cons n acc))))" % rd, "(lp 3 '())"])
+        P.append(["(define (lp n acc) (if (= n 0) acc (begin %s (lp (- n 1) (cons n acc)))))" % rd, "(lp 3 '())"])
+        P.append(["(define (lp n acc) (if (= n 0) acc (begin %s (lp (- n 1) (cons n acc)))))" % rd, "(lp 3 '())", "(lp 3 '())"])
+        P.append(["(define (lp n acc) (if (= n 0) acc (begin %s (car (list (lp (- n 1) (cons n acc)))))))" % rd, "(lp 3 '())"])
     # mutual recursion with rest args
     P.append(["(define (ev? n . r) (if (= n 0) (list #t r) (od? (- n 1) n)))", "(define (od? n . r) (if (= n 0) (list #f r) (ev? (- n 1) n r)))", "(list (ev? 4) (ev? 3 'x) (od? 2 'y 'z))"])
     # --- counters, captured + assigned variables
